@@ -29,6 +29,8 @@ package ggql
 //@   ensures[scan-ok] scanOk(p)
 //@   ensures[no-growth] scanM(p) <= old(scanM(p))
 //@   ensures[progress] t != nil ==> scanM(p) < old(scanM(p))
+//@   assigns fresh, p.onDeck, p.eof, p.line, p.col, #rd, BUF_len
+//@   check frame {C01}
 
 //@ func (*parser).readDesc
 //@   props C03
@@ -39,6 +41,8 @@ package ggql
 //@   ensures[no-growth] scanM(p) <= old(scanM(p))
 //@   ensures[eof-discovered] p.eof && !old(p.eof) ==> scanM(p) < old(scanM(p))
 //@   ensures[progress] err == nil && old(p.onDeck) == 34 ==> scanM(p) < old(scanM(p))
+//@   assigns fresh, p.onDeck, p.eof, p.line, p.col, #rd, BUF_len
+//@   check frame {C01}
 //@   loop 0: invariant[scan] scanOk(p) && scanM(p) <= old(scanM(p))
 //@           invariant[eof-discovered] p.eof && !old(p.eof) ==> scanM(p) < old(scanM(p))
 
@@ -52,6 +56,8 @@ package ggql
 //@   ensures[eof-discovered] p.eof && !old(p.eof) ==> scanM(p) < old(scanM(p))
 //@   results res, err
 //@   ensures[progress] err == nil && old(p.onDeck) == 34 ==> scanM(p) < old(scanM(p))
+//@   assigns fresh, p.onDeck, p.eof, p.line, p.col, #rd, BUF_len
+//@   check frame {C01}
 //@   loop 0: invariant[scan] scanOk(p) && scanM(p) <= old(scanM(p))
 //@           invariant[eof-discovered] p.eof && !old(p.eof) ==> scanM(p) < old(scanM(p))
 //@           invariant[progress-kept] old(p.onDeck) == 34 ==> scanM(p) < old(scanM(p))
@@ -69,6 +75,8 @@ package ggql
 //@   ensures[scan-ok] scanOk(p)
 //@   ensures[no-growth] scanM(p) <= old(scanM(p))
 //@   ensures[eof-discovered] p.eof && !old(p.eof) ==> scanM(p) < old(scanM(p))
+//@   assigns fresh, p.onDeck, p.eof, p.line, p.col, #rd, BUF_len
+//@   check frame {C01}
 //@   loop 0: invariant[scan] scanOk(p) && scanM(p) <= old(scanM(p))
 //@           invariant[eof-discovered] p.eof && !old(p.eof) ==> scanM(p) < old(scanM(p))
 //@           decreases scanM(p)
@@ -84,8 +92,11 @@ package ggql
 //@   ensures[scan-ok] scanOk(p)
 //@   ensures[no-growth] scanM(p) <= old(scanM(p))
 //@   ensures[progress] err == nil && old(p.onDeck) != 0 ==> scanM(p) < old(scanM(p))
+//@   assigns fresh, p.onDeck, p.eof, p.line, p.col, #rd, BUF_len
+//@   check frame {C01}
 //@   loop 0: invariant[scan] scanOk(p) && scanM(p) <= old(scanM(p))
 //@           invariant[bracket-consumed] scanM(p) < old(scanM(p))
+//@           invariant[own-list] fresh(list)
 //@           decreases scanM(p)
 //@   loop 1: invariant[scan] scanOk(p) && scanM(p) <= old(scanM(p))
 //@           invariant[bracket-consumed] scanM(p) < old(scanM(p))
@@ -99,6 +110,8 @@ package ggql
 //@   requires[scan] scanOk(p)
 //@   ensures[scan-ok] scanOk(p)
 //@   ensures[no-growth] scanM(p) <= old(scanM(p))
+//@   assigns fresh, p.onDeck, p.eof, p.line, p.col, #rd, BUF_len
+//@   check frame {C01}
 //@   loop 0: invariant[scan] scanOk(p) && scanM(p) <= old(scanM(p))
 //@           decreases scanM(p)
 
@@ -111,6 +124,8 @@ package ggql
 //@   ensures[scan-ok] scanOk(p)
 //@   ensures[no-growth] scanM(p) <= old(scanM(p))
 //@   ensures[progress] du != nil ==> scanM(p) < old(scanM(p))
+//@   assigns fresh, p.onDeck, p.eof, p.line, p.col, #rd, BUF_len
+//@   check frame {C01}
 //@   loop 0: invariant[scan] scanOk(p) && scanM(p) <= old(scanM(p))
 //@           decreases scanM(p)
 //@   loop 1: invariant[scan] scanOk(p) && scanM(p) <= old(scanM(p))
@@ -122,6 +137,8 @@ package ggql
 //@   requires[scan] scanOk(p)
 //@   ensures[scan-ok] scanOk(p)
 //@   ensures[no-growth] scanM(p) <= old(scanM(p))
+//@   assigns fresh, p.onDeck, p.eof, p.line, p.col, #rd, BUF_len
+//@   check frame {C01}
 //@   loop 0: invariant[scan] scanOk(p) && scanM(p) <= old(scanM(p))
 //@           decreases scanM(p)
 
@@ -134,6 +151,8 @@ package ggql
 //@   ensures[no-growth] scanM(p) <= old(scanM(p))
 //@   ensures[progress] err == nil ==> scanM(p) < old(scanM(p))
 //@   ensures[shape] err == nil ==> av != nil
+//@   assigns fresh, p.onDeck, p.eof, p.line, p.col, #rd, BUF_len
+//@   check frame {C01}
 
 //@ func parseSDL
 //@   props C03
@@ -397,9 +416,14 @@ package ggql
 //@           invariant[dots] i <= 3 && (i < 3 ==> scanM(p.parser) < old(scanM(p.parser)))
 //@           decreases scanM(p.parser)
 
+//@ -- a fragment spread refers to the one Fragment object registered under that name: the placeholder made by the first
+//@ -- forward spread is reused by every later spread and filled in by the definition (C01/C08: spreads expand to the fragment)
 //@ func (*exeParser).readFragRef
-//@   props C03
+//@   props C03 C01
 //@   check panic {C03}
+//@   ensures[one-fragment-per-name]{C01} fr != nil && fr.Fragment != nil && p.exe.Fragments != nil && p.exe.Fragments[token] == fr.Fragment
+//@   ensures[registered-kept]{C01} old(p.exe.Fragments) != nil && old(p.exe.Fragments[token]) != nil ==> p.exe.Fragments == old(p.exe.Fragments) && p.exe.Fragments[token] == old(p.exe.Fragments[token])
+//@   ensures[others-kept]{C01} old(p.exe.Fragments) != nil ==> p.exe.Fragments == old(p.exe.Fragments) && (forall k string {p.exe.Fragments[k]} :: k != token ==> p.exe.Fragments[k] == old(p.exe.Fragments[k]))
 //@   requires p != nil
 //@   requires[root] p.root != nil
 //@   requires[scan] scanOk(p.parser)
